@@ -25,7 +25,8 @@ CHECKS = {
     text="Seeded histories of turns with generated plan deltas over a recording, fault-injecting store double (batch raises, "
          "single deltas raise, odd result shapes, failing invalidation) with kill switch, cadence and bust mode toggled mid-history; "
          "a reference model of the hand-off, version, invalidation and cadence is checked after every turn.",
-    note="Store double is all-or-nothing by construction; planner deltas enter through the orchestrator's t3_deliberate seam.",
+    note="Store double is all-or-nothing by construction; planner deltas enter through the orchestrator's t3_deliberate seam; a third of the "
+         "programs build contexts like the engine's own TurnCtx (ctx.cfg only) - where Apply ignores the configuration (recorded finding).",
     technique="deterministic simulation: fault-injecting store double + reference model over seeded histories"),
  "C05": dict(level="exploration", ref="4/C05",
     text="One history, two arms (configured caches vs all caches off) under the same simulated clock; histories interleave turns "
@@ -67,7 +68,7 @@ CHECKS = {
     text="Scheduler-core histories with a simulated clock (advances, tier crossings, backward jumps), both policies and optional queue "
          "rotation are checked for determinism, eligibility, reset and the 2(n-1)m+1 selection bound; orchestrator turns run with scripted "
          "per-stage simulated costs and drawn budgets, checking clamps, yield placement and reason precedence.",
-    note="Liveness is a step bound over finite histories; T1 caps on single-graph worlds.",
+    note="Liveness is a step bound over finite histories; worlds have 1-3 active graphs (the slice budgets bind the stage, not each graph).",
     technique="deterministic simulation: simulated scheduler/slice clocks with scripted stage costs, invariant + bounded-liveness checks over seeded histories"),
  "C18": dict(level="exploration", ref="4/C18",
     text="Histories over observe/tick/merge/split/promote and snapshot+restart (optionally killed mid-write) under validator-accepted graph "
